@@ -5,5 +5,6 @@ for d in /tmp/seed/out/C*; do
   [ -f $d/confirm.log ] || continue
   tail -1 $d/confirm.log | grep -q "demo_clean_exit=0 demo_mutated_exit=[1-9][0-9]* ctest_exit=0" || { echo "$id not confirmed: $(tail -1 $d/confirm.log)"; continue; }
   prop=$(echo $id | sed 's/[a-z]$//')
+  case " $SKIP " in *" $prop "*) continue;; esac
   /verif/tools/keep_seed.py $d $id $prop $prop
 done
